@@ -6,6 +6,9 @@ ROOT = os.path.dirname(os.path.dirname(os.path.abspath(__file__)))
 seeds = sorted(d for d in os.listdir(os.path.join(ROOT, "seeded")) if os.path.isdir(os.path.join(ROOT, "seeded", d)))
 mpath = os.path.join(ROOT, "seeded", "MATRIX.json")
 matrix = json.load(open(mpath)) if os.path.exists(mpath) else {}
+# TARGET.json: the registered quick command of the target property only, at full scale
+tpath = os.path.join(ROOT, "seeded", "TARGET.json")
+target = json.load(open(tpath)) if os.path.exists(tpath) else {}
 rows = ["| seed | breaks | needs (abridged) | target check: finding kinds | also caught by |", "|---|---|---|---|---|"]
 for s in seeds:
     meta = json.load(open(os.path.join(ROOT, "seeded", s, "meta.json")))
@@ -22,6 +25,14 @@ for s in seeds:
         also = ", ".join(others) + ((" (inconclusive: " + ", ".join(broken) + ")") if broken else "") \
             + ((" (stopped after 7 min: " + ", ".join(slow) + ")") if slow else "")
         tgt_txt = ("**caught**: " if tgt.get("exit") == 1 else "**MISSED**: ") + kinds
+    elif s in target and prop in target[s]:
+        tgt = target[s][prop]
+        kinds = ", ".join(tgt.get("kinds", [])) or ("(exit %s)" % tgt.get("exit"))
+        if tgt.get("exit") == 1 and not tgt.get("kinds"):
+            kinds = "cell mismatch"
+        tgt_txt = ("**caught**: " if tgt.get("exit") == 1 else "**MISSED**: ") + kinds
+        also = ", ".join(c for c in meta.get("caught_by_checks", []) if c != prop)
+        also = (also + " (other checks: as tried by hand, matrix row not run)") if also else "(matrix row not run)"
     else:
         tgt_txt = "caught (" + ", ".join(meta.get("caught_by_checks", [])[:1]) + "; matrix not run)"
         also = ", ".join(meta.get("caught_by_checks", [])[1:])
